@@ -1,7 +1,7 @@
 //! Reference model of the composition-graph API (DESIGN.md A.1), written from the rustdoc
 //! of the public methods and the statement of C06. Boring on purpose: maps and sets.
 
-use crate::lib_spec::{PkgSpec, Ty};
+use crate::lib_spec::{PkgSpec, Tri, Ty};
 use serde::{Deserialize, Serialize};
 use std::collections::{BTreeMap, BTreeSet};
 
@@ -187,13 +187,13 @@ impl Model {
                                     e.admissible.insert("ArgumentAlreadyPassed");
                                 }
                                 let compatible = match &self.nodes[a].item {
-                                    RItem::Ty(t) => t.is_subtype_of(want),
-                                    RItem::TypeDef(_) => false,
+                                    RItem::Ty(t) => t.subtype(want),
+                                    RItem::TypeDef(_) => Tri::No,
                                 };
-                                if !compatible {
+                                if compatible != Tri::Yes {
                                     e.admissible.insert("ArgumentTypeMismatch");
                                 }
-                                if e.admissible.is_empty() {
+                                if e.admissible.is_empty() || (compatible == Tri::Unknown && held.is_none()) {
                                     e.admissible.insert("Ok");
                                 }
                             }
@@ -511,20 +511,59 @@ pub fn same_track(a: &str, b: &str) -> bool {
     a == b || matches!((track(a), track(b)), (Some(x), Some(y)) if x == y)
 }
 
-/// Reference merge of two requirement types (A.3): None on conflict.
-pub fn merge_ty(a: &Ty, b: &Ty) -> Option<Ty> {
+#[derive(Debug, Clone, PartialEq)]
+pub enum Merge {
+    Ok(Ty),
+    Conflict,
+    /// the model cannot tell (opaque types from different sources)
+    Unknown,
+}
+
+/// Reference merge of two requirement types (A.3).
+pub fn merge_ty(a: &Ty, b: &Ty) -> Merge {
     match (a, b) {
-        (Ty::Func(..), Ty::Func(..)) => (a == b).then(|| a.clone()),
+        (Ty::Func(..), Ty::Func(..)) => {
+            if a == b {
+                Merge::Ok(a.clone())
+            } else {
+                Merge::Conflict
+            }
+        }
         (Ty::Inst(x), Ty::Inst(y)) => {
             let mut out = x.clone();
+            let mut unknown = false;
             for (n, ty) in y {
                 match out.iter_mut().find(|(m, _)| m == n) {
-                    Some((_, tx)) => *tx = merge_ty(tx, ty)?,
+                    Some((_, tx)) => match merge_ty(tx, ty) {
+                        Merge::Ok(t) => *tx = t,
+                        Merge::Conflict => return Merge::Conflict,
+                        Merge::Unknown => unknown = true,
+                    },
                     None => out.push((n.clone(), ty.clone())),
                 }
             }
-            Some(Ty::Inst(out))
+            if unknown {
+                Merge::Unknown
+            } else {
+                Merge::Ok(Ty::Inst(out))
+            }
         }
-        _ => None,
+        (Ty::Opaque(ka, ca), Ty::Opaque(kb, cb)) => {
+            if ka != kb {
+                Merge::Conflict
+            } else if ca == cb {
+                Merge::Ok(a.clone())
+            } else {
+                Merge::Unknown
+            }
+        }
+        (Ty::Opaque(k, _), o) | (o, Ty::Opaque(k, _)) => {
+            if k == o.kind_str() {
+                Merge::Unknown
+            } else {
+                Merge::Conflict
+            }
+        }
+        _ => Merge::Conflict,
     }
 }
